@@ -51,8 +51,9 @@ class _Licensing(Licensing):
     def parse(self, *args: Any, **kwargs: Any) -> Any:
         try:
             return super().parse(*args, **kwargs)
-        except IndexError as error:
-            # license_expression raises IndexError for e.g. '()'.
+        except (IndexError, AssertionError) as error:
+            # license_expression raises IndexError for e.g. '()', and
+            # boolean.py an AssertionError for e.g. '( AND MIT'.
             raise ExpressionError(
                 f"Invalid license expression: {args[0] if args else ''!r}"
             ) from error
